@@ -74,14 +74,18 @@ func drawOffset(t *rapid.T, n int64) int64 {
 }
 
 func drawLimit(t *rapid.T, rest int64) int64 {
-	cands := []int64{0, 0, 1, rest - 1, rest, rest + 1, 1 << 40}
+	cands := []int64{0, 0, 1, rest - 1, rest - 1, rest / 2, rest / 2, rest, rest + 1, 1 << 40, -2}
 	var ok []int64
 	for _, x := range cands {
-		if x >= 0 {
+		if x >= 0 || (x == -2 && rest > 2) {
 			ok = append(ok, x)
 		}
 	}
-	return rapid.SampledFrom(ok).Draw(t, "limit")
+	l := rapid.SampledFrom(ok).Draw(t, "limit")
+	if l == -2 {
+		l = rapid.Int64Range(1, rest-1).Draw(t, "limitVal")
+	}
+	return l
 }
 
 var paths = []string{"http", "http-zstd", "http-head", "batch", "batch-zstd", "bs", "bs", "bs-zstd", "bs-zstd", "disk", "disk-unknown", "diskz", "diskz-unknown"}
@@ -130,8 +134,14 @@ func TestC02Read(t *testing.T) {
 		defer s.Close()
 		n := b.Size
 		nreads := 4
+		if n > 64*gen.KiB {
+			nreads = 7 // large blobs are rarer and costlier to set up: read them more often
+		}
 		for i := 0; i < nreads; i++ {
 			path := rapid.SampledFrom(paths).Draw(t, "path")
+			if n > 64*gen.KiB && i == 0 {
+				path = "bs" // every large blob gets at least one ranged, limited identity read
+			}
 			var off, limit int64
 			hasOff := path == "bs" || path == "bs-zstd" || path == "disk" || path == "disk-unknown" || path == "diskz" || path == "diskz-unknown"
 			if hasOff {
